@@ -57,7 +57,12 @@ func (server *SugarDB) aofLogEntry(ctx context.Context, cmd []string, res []byte
 		return message
 
 	case "set", "getex":
-		for i := 2; i < len(cmd)-1; i++ {
+		// The options follow the key (GETEX) or the value (SET): a value that reads "ex" or "px" is not an option.
+		first := 2
+		if strings.EqualFold(cmd[0], "set") {
+			first = 3
+		}
+		for i := first; i < len(cmd)-1; i++ {
 			if strings.EqualFold(cmd[i], "ex") || strings.EqualFold(cmd[i], "px") {
 				at, ok := absoluteExpiry()
 				if !ok {
